@@ -167,6 +167,22 @@ def draw_spec(rng, n_vms=None, max_depth=4, allow_multi_producer=True, allow_rem
     return {"vms": vms, "setups": setups, "leaves": leaves, "groups": groups}
 
 
+def draw_fan_spec(rng):
+    """One vm, a short chain of (mostly removable) setups and several leaves depending on the same setup."""
+    vms = {"vm1": {"variants": ["A1"], "images": ["image1"], "permanent": False}}
+    setups = [{"name": "s1", "parent": "install", "parent_level": "images", "level": rng.choice(["images", "images", "vms"]), "state": "st1",
+               "removable": rng.random() < 0.8, "test_timeout": rng.choice([50, 100, 300])}]
+    if rng.random() < 0.5:
+        setups.append({"name": "s2", "parent": "s1", "parent_level": setups[0]["level"], "level": "images", "state": "st2",
+                       "removable": rng.random() < 0.8, "test_timeout": rng.choice([50, 100])})
+    leaves = []
+    for index in range(rng.randint(2, 6)):
+        # most leaves depend on the drawn setups, some only on the installed vm (work that keeps a worker away)
+        leaves.append({"name": f"t{index + 1}", "vms": ["vm1"], "needs": {"vm1": rng.choice([s["name"] for s in setups] * 3 + ["install"])},
+                       "test_timeout": rng.choice([20, 100, 300]), "only": {}})
+    return {"vms": vms, "setups": setups, "leaves": leaves, "groups": []}
+
+
 def _get_lines(vm, producer_name, level, state, indent, specific=True):
     suffix = f"_{vm}" if specific else ""
     pad = " " * indent
